@@ -606,7 +606,9 @@ fn gen_c17(ctx: &mut Ctx) {
                 break;
             }
             n += 1;
-            let own = *rng.pick(&[3u16, 0x7F, 0xFFFF]);
+            // (the first conversations always include addresses whose high byte is not zero, whatever the seed)
+            let own = [0xFFFFu16, 3, 0x0103, 0x7F][(n - 1) % 4];
+            let _ = rng.pick(&[3u16, 0x7F, 0xFFFF]);
             let (w, h) = crate::gen::SIGN_SIZES[t];
             let small = (w * h) <= 700;
             let np = if small { 1 + rng.below(2) as usize } else { 1 };
